@@ -664,9 +664,31 @@ async fn c07_phase1<I: Backing>(rng: &mut StdRng, i: u64, out: &mut CaseOut, inn
     let mut visible: Vec<(String, Key, HLCTimestamp, bool)> = Vec::new();
     let mut acked_deletes: Vec<(String, Key, HLCTimestamp)> = Vec::new();
     let mut max_stamp_ms = 0u64;
+    // clients also READ: point lookups (get / multi_get on the node's storage, what the public handle's
+    // get / get_many do) before the first write of a keyspace and between requests - a backend that treats
+    // a keyspace first touched by a read differently must still list and rebuild it after the restart
+    let reads_first = g.rng.gen_bool(0.4);
+    if reads_first {
+        for ksn in keyspaces {
+            if g.rng.gen_bool(0.7) {
+                let id = g.rng.gen_range(0..4u64);
+                let r = if g.rng.gen_bool(0.5) { node.store.get(ksn, id).await.map(|_| ()) } else { node.store.multi_get(ksn, [id, id + 1].into_iter()).await.map(|_| ()) };
+                if let Err(e) = r {
+                    return Err(format!("read before the first write failed: {e}"));
+                }
+                trace.push(json!({"keyspace": ksn, "request": "point lookup before anything was written"}));
+                out.count("keyspaces_first_touched_by_a_read", 1);
+            }
+        }
+    }
     for k in 0..nreq {
         let ksn = *keyspaces.choose(&mut g.rng).unwrap();
         let last = k + 1 == nreq;
+        if g.rng.gen_bool(0.1) {
+            let other = *keyspaces.choose(&mut g.rng).unwrap();
+            let _ = node.store.get(other, g.rng.gen_range(0..4u64)).await;
+            trace.push(json!({"keyspace": other, "request": "point lookup"}));
+        }
         let req = g.next(true);
         if last && crash_inside && !matches!(req, Req::Purge) {
             ctl.park_after.store(g.rng.gen_range(0..3), Ordering::SeqCst);
